@@ -187,7 +187,7 @@ fn check_reg(c: &RegCircuit) -> Result<bool, String> {
     Ok(true)
 }
 
-const SHAPES: [&[usize]; 7] = [&[1], &[2], &[1, 1], &[0, 1], &[1, 0], &[2, 1], &[0]];
+const SHAPES: [&[usize]; 10] = [&[1], &[2], &[1, 1], &[0, 1], &[1, 0], &[2, 1], &[0], &[1, 0, 1], &[0, 1, 0], &[1, 0, 0, 1]];
 
 fn ssa_gates(idx: &[usize]) -> Vec<Gate> {
     let mut v = vec![];
